@@ -613,3 +613,296 @@ func (p *Program) pfReturnCases(fn *ssa.Function) []ReturnCase {
 	}
 	return out
 }
+
+// ---------------------------------------------------------------------------------------------
+// Values as seen after one particular call ("per reaching definition")
+//
+// When alternative calls deliver their results into the same variables
+//
+//	if c { a, b, err = f() } else { a, b, err = g() }; if err != nil { … }
+//
+// the code that follows tests and uses merge values: Phis of the block where the alternatives join, or
+// loads of a local with one store per alternative. An obligation about ONE of the calls ("after f
+// failed …") is about the paths on which that call was the one that executed. pfAfterView resolves
+// values on exactly those paths: a Phi of a block that lies strictly after the call (within the same
+// loop iteration) contributes only the edges that can be taken after the call; a load of a local
+// yields only the stores executed after the call when every path from the call to the load passes
+// one of them.
+
+type pfAfterView struct {
+	p      *Program
+	call   *ssa.Call
+	head   *ssa.BasicBlock // head of the innermost loop around the call (nil: none)
+	region map[*ssa.BasicBlock]bool
+	after  map[*ssa.BasicBlock]int // 1 = strictly after the call, 2 = not
+}
+
+func (p *Program) pfAfter(call *ssa.Call) *pfAfterView {
+	w := &pfAfterView{p: p, call: call, after: map[*ssa.BasicBlock]int{}}
+	if l := innermostLoop(call.Parent(), call.Block()); l != nil {
+		w.head = l.Head
+	}
+	w.region = pfIterRegion(call, w.head)
+	return w
+}
+
+// strictlyAfter: b executes only after the call within the iteration (reachable from the call's
+// block without passing the loop head, and the call's block is not reachable from b that way).
+func (w *pfAfterView) strictlyAfter(b *ssa.BasicBlock) bool {
+	if v, ok := w.after[b]; ok {
+		return v == 1
+	}
+	res := 2
+	if w.region[b] && b != w.call.Block() && b != w.head {
+		back := false
+		seen := map[*ssa.BasicBlock]bool{b: true}
+		work := append([]*ssa.BasicBlock{}, b.Succs...)
+		for len(work) > 0 && !back {
+			x := work[len(work)-1]
+			work = work[:len(work)-1]
+			if x == w.head || seen[x] {
+				continue
+			}
+			seen[x] = true
+			if x == w.call.Block() {
+				back = true
+			}
+			work = append(work, x.Succs...)
+		}
+		if !back {
+			res = 1
+		}
+	}
+	w.after[b] = res
+	return res == 1
+}
+
+// instrAfter: the instruction executes after the call in the same iteration.
+func (w *pfAfterView) instrAfter(in ssa.Instruction) bool {
+	if in.Block() == w.call.Block() {
+		return instrIndex(in) > instrIndex(w.call)
+	}
+	return w.strictlyAfter(in.Block())
+}
+
+// phiEdges: which incoming edges of the Phi can be taken on a path from the call.
+func (w *pfAfterView) phiEdges(q *ssa.Phi) []bool {
+	b := q.Block()
+	ok := make([]bool, len(q.Edges))
+	narrow := w.strictlyAfter(b)
+	any := false
+	for i := range ok {
+		ok[i] = !narrow || (i < len(b.Preds) && w.region[b.Preds[i]])
+		any = any || ok[i]
+	}
+	if !any {
+		for i := range ok {
+			ok[i] = true
+		}
+	}
+	return ok
+}
+
+// storesAt: the stores to local a that can be its last store at instruction `at` on a path from the
+// call. narrowed=false: the plain reaching stores (no store after the call is certain to have run).
+func (w *pfAfterView) storesAt(a *ssa.Alloc, at ssa.Instruction) (sts []*ssa.Store, complete, narrowed bool) {
+	all, okk := w.p.storesReaching(a, at)
+	if !w.instrAfter(at) {
+		return all, okk, false
+	}
+	var kept []*ssa.Store
+	isKept := map[ssa.Instruction]bool{}
+	for _, s := range all {
+		if w.instrAfter(s) {
+			kept = append(kept, s)
+			isKept[s] = true
+		}
+	}
+	if len(kept) == 0 {
+		return all, okk, false
+	}
+	// every path from the call to `at` passes one of the kept stores
+	seen := map[*ssa.BasicBlock]bool{}
+	var walk func(b *ssa.BasicBlock, start int) bool
+	walk = func(b *ssa.BasicBlock, start int) bool {
+		for i := start; i < len(b.Instrs); i++ {
+			if isKept[b.Instrs[i]] {
+				return true
+			}
+			if b.Instrs[i] == at {
+				return false
+			}
+		}
+		for _, s := range b.Succs {
+			if s == w.head || seen[s] {
+				continue
+			}
+			seen[s] = true
+			if !walk(s, 0) {
+				return false
+			}
+		}
+		return true
+	}
+	if !walk(w.call.Block(), instrIndex(w.call)+1) {
+		return all, okk, false
+	}
+	return kept, !w.p.allocInfo(a).unknown, true
+}
+
+// values is possibleValues restricted to the paths that executed the call.
+func (w *pfAfterView) values(v ssa.Value) []ssa.Value {
+	p := w.p
+	var out []ssa.Value
+	seen := map[ssa.Value]bool{}
+	var walk func(v ssa.Value, d int)
+	walk = func(v ssa.Value, d int) {
+		if v == nil || seen[v] {
+			return
+		}
+		seen[v] = true
+		if d > 8 {
+			out = append(out, v)
+			return
+		}
+		switch x := v.(type) {
+		case *ssa.Phi:
+			ok := w.phiEdges(x)
+			for i, e := range x.Edges {
+				if ok[i] {
+					walk(e, d+1)
+				}
+			}
+			return
+		case *ssa.UnOp:
+			if x.Op == token.MUL {
+				if a, isAlloc := x.X.(*ssa.Alloc); isAlloc {
+					sts, okk, narrowed := w.storesAt(a, x)
+					zero := !narrowed && p.mayHoldZero(a, x)
+					if ai := p.allocInfo(a); !ai.unknown && len(ai.stores) > 0 && (okk || zero) {
+						for _, s := range sts {
+							walk(s.Val, d+1)
+						}
+						if zero {
+							out = append(out, zeroConst(x.Type()))
+						}
+						return
+					}
+				}
+			}
+		}
+		out = append(out, v)
+	}
+	walk(v, 0)
+	return out
+}
+
+// isResult: on the paths that executed the call, every value that may flow into v is its result idx.
+func (w *pfAfterView) isResult(v ssa.Value, idx int) bool {
+	vals := w.values(v)
+	if len(vals) == 0 {
+		return false
+	}
+	n := w.call.Common().Signature().Results().Len()
+	for _, pv := range vals {
+		c, i := asCall(pv)
+		if c != w.call {
+			return false
+		}
+		if !(i == idx || (i == -1 && n == 1 && idx == 0)) {
+			return false
+		}
+	}
+	return true
+}
+
+// pointeeIsResult: ptr is a local whose content at instruction `at` is, on the paths that executed
+// the call, result idx of the call, and the local is not assigned again between `at` and the end of
+// the iteration (so what a pointer-receiver method saw at `at` still describes the variable).
+func (w *pfAfterView) pointeeIsResult(ptr ssa.Value, at ssa.Instruction, idx int) bool {
+	a, ok := ptr.(*ssa.Alloc)
+	if !ok {
+		return false
+	}
+	af := w.p.allocInfo(a)
+	if af.unknown || len(af.stores) == 0 {
+		return false
+	}
+	if len(af.stores) == 1 {
+		return w.isResult(af.stores[0].Val, idx)
+	}
+	if at == nil {
+		return false
+	}
+	sts, complete, narrowed := w.storesAt(a, at)
+	if !narrowed || !complete || len(sts) == 0 {
+		return false
+	}
+	for _, s := range sts {
+		if !w.isResult(s.Val, idx) {
+			return false
+		}
+	}
+	// no later re-assignment in this iteration
+	for _, in := range reachableAfter(at, func(in ssa.Instruction) bool { return w.head != nil && in.Block() == w.head }) {
+		if s, isStore := in.(*ssa.Store); isStore && s.Addr == ssa.Value(a) && in.Block() != w.head {
+			return false
+		}
+	}
+	return true
+}
+
+// errOf: do the facts decide the error result of the call (yes = known nil) on the paths that
+// executed it?
+func (w *pfAfterView) errOf(fs []Fact) tri {
+	res := w.call.Common().Signature().Results()
+	errIdx := pfResultIndex(w.call.Common().Signature(), "error")
+	if errIdx < 0 {
+		return unknownTri
+	}
+	for _, f := range fs {
+		x, trueMeansNonNil, ok := errNilTest(f.Cond)
+		if !ok {
+			continue
+		}
+		vals := w.values(x)
+		if len(vals) != 1 {
+			continue
+		}
+		cc, idx := asCall(vals[0])
+		if cc != w.call || !(res.Len() == 1 && idx == -1 || idx == errIdx) {
+			continue
+		}
+		if f.Pol == trueMeansNonNil {
+			return noTri
+		}
+		return yesTri
+	}
+	return unknownTri
+}
+
+// isZero: do the facts decide `<result idx of the call>.IsZero()` on the paths that executed it?
+func (w *pfAfterView) isZero(fs []Fact, idx int) tri {
+	for _, f := range fs {
+		zc, _ := asCall(f.Cond)
+		if zc == nil || calleeName(zc.Common()) != "IsZero" {
+			continue
+		}
+		recv := callRecv(zc.Common())
+		if recv == nil {
+			continue
+		}
+		if _, isAlloc := recv.(*ssa.Alloc); isAlloc {
+			if !w.pointeeIsResult(recv, zc, idx) {
+				continue
+			}
+		} else if !w.isResult(recv, idx) {
+			continue
+		}
+		if f.Pol {
+			return yesTri
+		}
+		return noTri
+	}
+	return unknownTri
+}
